@@ -232,11 +232,68 @@ def run_case(case, chooser):
         rig.close()
 
 
+def run_pipelined(case, chooser):
+    """REST k, a transfer and one more command arrive in one segment (the server runs every command as its own
+    task): the transfer still starts at k whatever comes after it and however the backend's answers are ordered"""
+    op, k, after, bname = case["op"], case["k"], case["after"], case["backend"]
+    spy = None
+    if bname == "jobs":
+        # every path lookup of the backend first waits for an executor job (an environment event)
+        spy = backends.SpyControl()
+        spy.op_job = {"exists", "is_file", "is_dir", "stat"}
+    rig = Rig(chooser=chooser, tree={"old": OLD, "other": b"OTHER-FILE"}, spy=spy, n_sessions=1,
+              backend="memory" if bname == "jobs" else bname, server_kwargs={"block_size": 3, "wait_future_timeout": 2})
+    problems = []
+    try:
+        chooser.active = False
+        w = rig.world
+        if spy is not None:
+            spy.armed = False
+        for e in ("@connect", "USER anonymous", "EPSV", "@data"):
+            rig.ev(0, e)
+        if spy is not None:
+            spy.armed = True
+        s0 = rig.sessions[0]
+        lines = [f"REST {k}", f"{op} old", after]
+        chooser.active = True
+        s0.send(("\r\n".join(lines) + "\r\n").encode())
+        w.settle(5)
+        data = b"NEWDATA"
+        if op in ("STOR", "APPE") and s0.data is not None:
+            rig.ev(0, "@dsend " + data.decode())
+            rig.ev(0, "@dclose")
+        chooser.active = False
+        w.settle(5)
+        rig.collect()
+        codes = [cd for _, r in s0.transcript for cd, _ in r]
+        snap = rig.snapshot()
+        if op == "RETR":
+            got = s0.data.received if s0.data is not None else None
+            if got != OLD[k:]:
+                problems.append({"kind": "pipelined-restart-downloaded-bytes", "got": repr(got)[:80], "want": repr(OLD[k:]),
+                                 "sent": lines, "codes": codes[-5:]})
+        else:
+            want = expected_upload(op, OLD, data, k)
+            if snap.get("/old") != want:
+                problems.append({"kind": "pipelined-restart-stored-bytes", "got": repr(snap.get("/old"))[:80],
+                                 "want": repr(want), "sent": lines, "codes": codes[-5:]})
+        if snap.get("/other") != b"OTHER-FILE":
+            problems.append({"kind": "pipelined-restart-other-file-changed", "got": repr(snap.get("/other"))[:80]})
+        return {"problems": problems, "trace": report.fp(w.net.trace), "events": w.net.n_events,
+                "outcome": report.fp([op, codes[-4:]])}
+    except Hang:
+        return {"problems": [{"kind": "hang"}], "trace": report.fp(rig.world.net.trace), "events": rig.world.net.n_events,
+                "outcome": "hang"}
+    finally:
+        rig.close()
+
+
 def _work(item):
     case, bound, kinds, cap = item
     part = report.Partial()
     try:
-        for ch, res in explore(lambda c: run_case(case, c), bound, kinds=kinds, max_exec=cap):
+        fn = run_pipelined if case.get("pipelined") else run_case
+        for ch, res in explore(lambda c: fn(case, c), bound, kinds=kinds, max_exec=cap):
             if ch is None:
                 part.caps.append({"case": case, "cap": cap})
                 break
@@ -244,7 +301,7 @@ def _work(item):
             part.traces += 1
             part.transitions += res["events"]
             part.states.add(res["trace"])
-            if ch.deviations or case["n"] > case["b"] or case["k"]:
+            if ch.deviations or case.get("n", 0) > case.get("b", 0) or case["k"]:
                 part.nontrivial.add(res["trace"])
             part.outcomes[res["outcome"]] += 1
             part.counters[f"exec_dev{ch.deviations}"] += 1
@@ -252,7 +309,7 @@ def _work(item):
                 part.sample({"case": case, "choices": ch.choices}, limit=1)
             for p in res["problems"]:
                 part.violation({"kind": p["kind"], "op": case["op"], "rest": bool(case["k"]), "observer": case.get("observer"),
-                                "backend_suspends": case["backend"] in ("slow", "async", "buffered")},
+                                "backend_suspends": case["backend"] in ("slow", "async", "buffered", "jobs")},
                                {"problem": p, "case": case, "deviations": ch.deviations},
                                replay={"case": case, "choices": ch.choices, "kinds": kinds})
                 break
@@ -365,6 +422,13 @@ def grid(tier):
     c = {"op": "RETR", "target": "old", "n": 9, "k": 3, "b": 8192, "chunks": [], "readsize": 8192, "backend": "memory",
          "split_all": True}
     items.append((c, 1 if tier == "quick" else 2, ["split"], 5000))
+    # REST, the transfer and one more command in one segment (handlers are concurrent tasks in the server)
+    for backend in ("memory", "jobs", "async"):
+        for op in ("RETR", "STOR", "APPE"):
+            for k in (0, 4):
+                for after in ("RETR missing", "STOR d/x/y", "NOOP", "REST 2", "PWD", "APPE missing/z"):
+                    c = {"pipelined": True, "op": op, "k": k, "after": after, "backend": backend}
+                    items.append((c, 1 if tier == "quick" else 2, ["order"], 3000))
     return items
 
 
@@ -382,6 +446,8 @@ def run(tier, seed, t0):
               "passive": ["epsv", "pasv"], "throttle": ["off", "server read/write", "client read/write", "client limits far below the file size"],
               "send_buffer": "data beyond a 0-2 byte kernel buffer is kept by reference until the peer takes it (buffer re-use shows)",
               "client_read_styles": ["read(n) loops", "one read() until EOF"],
+              "pipelined": "REST k + transfer + one more command in one segment x {memory, lookups waiting for executor "
+                           "jobs, async} x order deviations",
               "deviation_bound": 1 if tier == "quick" else 2, "cases": len(items)}
     return report.finish(
         PID, tier, seed, "model_checking", part, t0,
@@ -397,6 +463,7 @@ def run(tier, seed, t0):
 def replay(path):
     data = json.loads(open(path).read())
     rp = data["replay"]
-    res = run_case(rp["case"], Chooser(rp["choices"], rp.get("kinds") or None))
+    fn = run_pipelined if rp["case"].get("pipelined") else run_case
+    res = fn(rp["case"], Chooser(rp["choices"], rp.get("kinds") or None))
     print(json.dumps({"case": rp["case"], "problems": res["problems"]}, indent=1, default=repr))
     return 1 if res["problems"] else 0
